@@ -61,7 +61,8 @@ Segs == <<
   Seg("open", "a", "<a x=y\r\nz>", <<A("x", 3, "y", 5), A("z", 8, NONE, 0)>>),
   Seg("open", "p", "<p class={s  tu}>", <<A("class", 3, "{s  tu}", 9)>>),                   \* class names inside an expression value
   Seg("self", "b", "<b id=a class={ s t }/>", <<A("id", 3, "a", 6), A("class", 8, "{ s t }", 14)>>),
-  Seg("open", "a", "<a class=\"x\ty\n z\">", <<A("class", 3, "\"x\ty\n z\"", 9)>>) >>                 \* class names separated by a tab and a line break
+  Seg("open", "a", "<a class=\"x\ty\n z\">", <<A("class", 3, "\"x\ty\n z\"", 9)>>),
+  Seg("open", "b", "<b title=\"  \" class=\" \">", <<A("title", 3, "\"  \"", 9), A("class", 14, "\" \"", 20)>>) >>        \* 32: values made of blanks only (a value range, no class token)                 \* class names separated by a tab and a line break
 
 (* generated families: "<" name attribute-part end, script / style with a body and their closing tag, opaque sections *)
 GenAttrs == << [txt |-> "", attrs |-> <<>>],
